@@ -25,6 +25,7 @@ type Scenario struct {
 	Run        func(rc *RunCtx)
 	MaxOps     int
 	Horizon    time.Duration
+	Serial     bool
 	Doc        string
 }
 
@@ -43,7 +44,7 @@ func find(prop, name string) *Scenario {
 
 func (sc *Scenario) spec(seed uint64, idx int) Spec {
 	return Spec{Prop: sc.Prop, Scenario: sc.Name, Idx: idx, Seed: Mix(seed, sc.Prop, sc.Name, idx),
-		MaxOps: sc.MaxOps, Horizon: sc.Horizon, Main: sc.Run}
+		MaxOps: sc.MaxOps, Horizon: sc.Horizon, Serial: sc.Serial, Main: sc.Run}
 }
 
 type batchSummary struct {
@@ -281,7 +282,7 @@ func readReplay(path string) *ReplayFile {
 }
 
 func replaySpec(sc *Scenario, rf *ReplayFile, tape []uint32) Spec {
-	sp := Spec{Prop: sc.Prop, Scenario: sc.Name, Idx: rf.Idx, Seed: rf.Seed, MaxOps: sc.MaxOps, Horizon: sc.Horizon, Main: sc.Run}
+	sp := Spec{Prop: sc.Prop, Scenario: sc.Name, Idx: rf.Idx, Seed: rf.Seed, MaxOps: sc.MaxOps, Horizon: sc.Horizon, Serial: sc.Serial, Main: sc.Run}
 	if tape == nil {
 		tape = []uint32{}
 	}
